@@ -216,6 +216,8 @@ def _worker_chunk(args):
                 out["violation"] = lv
             agg["runs"] += 1
             agg["steps"] += out.get("steps", 0)
+            agg["sim_time"] = agg.get("sim_time", 0.0) + \
+                out.get("sim_time", 0.0)
             agg["ops"] += out.get("ops", 0)
             for k, v in out.get("faults", {}).items():
                 bump(agg["faults"], k, v)
@@ -369,6 +371,8 @@ def run_batch(mod, tier, seed, runs, wall, workers=None, chunk=None,
                     break
                 total["runs"] += agg["runs"]
                 total["steps"] += agg["steps"]
+                total["sim_time"] = total.get("sim_time", 0.0) + \
+                    agg.get("sim_time", 0.0)
                 total["ops"] += agg["ops"]
                 total["nontrivial_digests"] |= agg["nontrivial_digests"]
                 total["states"] |= agg["states"]
@@ -860,9 +864,13 @@ def write_evidence(mod, tier, seed, total, extra=None, violations=0):
         seeds="run i uses sha256('%d:%s:%s:i')[:8]; i in [0,%d)" % (
             seed, mod.ID, tier, runs),
         sim_steps=total["steps"],
+        sim_clock_seconds=round(total.get("sim_time", 0.0), 1),
         operations=total["ops"],
         sim_time_note="the library reads no clock: simulated time = logical "
-                      "steps (yield points / operations executed)",
+                      "steps (yield points / operations executed); "
+                      "sim_clock_seconds is the simulated clock of the thread "
+                      "scheduler (advanced only by stall faults and timed "
+                      "waits; 0 for checks without one)",
         faults_fired=dict(sorted(total["faults"].items())),
         probes=dict(sorted(total["probes"].items())),
         distinct_abstract_states=len(total["states"]),
